@@ -20,7 +20,7 @@ pub fn seeded_rng(salt: u64) -> bc_rand::SeededRandomNumberGenerator {
 
 // ------------------------------------------------------------------------------------ C04
 
-const N_OPS: usize = 30;
+const N_OPS: usize = 31;
 /// apply operation `k`; Ok(None) = operation not applicable to this state (documented error returned)
 fn apply(k: usize, e: &Envelope, step: u32) -> R<Option<Envelope>> {
     let fresh = |j: u32| 700 + step * 20 + j;
@@ -29,7 +29,7 @@ fn apply(k: usize, e: &Envelope, step: u32) -> R<Option<Envelope>> {
         0 => { op("add_assertion"); Some(e.add_assertion(leaf_text(fresh(0)), leaf_text(fresh(1)))) }
         1 => { op("add_assertion_envelope (duplicate)"); let a = e.assertions(); if a.is_empty() { return Ok(None); } let i = choice(a.len()); Some(must!(e.add_assertion_envelope(a[i].clone()), "re-add refused")) }
         2 => { op("remove_assertion (present)"); let a = e.assertions(); if a.is_empty() { return Ok(None); } let i = choice(a.len()); Some(e.remove_assertion(a[i].clone())) }
-        3 => { op("remove_assertion (absent)"); Some(e.remove_assertion(build(&a(l(fresh(2)), l(fresh(3)))))) }
+        3 => { op("remove_assertion (absent)"); let r = e.remove_assertion(build(&a(l(fresh(2)), l(fresh(3))))); ensure!(bytes(&r) == bytes(e), "removing an absent assertion changed the envelope", ""); Some(r) }
         4 => { op("replace_assertion"); let asr = e.assertions(); if asr.is_empty() { return Ok(None); } let i = choice(asr.len()); Some(must!(e.replace_assertion(asr[i].clone(), build(&a(l(fresh(4)), l(fresh(5))))), "replace refused")) }
         5 => { op("replace_subject (leaf)"); Some(e.replace_subject(build(&l(fresh(6))))) }
         6 => { op("replace_subject (node)"); Some(e.replace_subject(build(&n(l(fresh(7)), vec![a(l(fresh(8)), l(fresh(9)))])))) }
@@ -102,6 +102,19 @@ fn apply(k: usize, e: &Envelope, step: u32) -> R<Option<Envelope>> {
             let r = e.replace_subject(ns);
             ensure!(r.assertions().len() == asr.len(), "replace_subject duplicated a shared assertion", "{} -> {}", asr.len(), r.assertions().len());
             Some(r)
+        }
+        29 => {
+            // every adding entry point refuses what is neither an assertion nor an obscured element
+            op("add_assertion_envelope* (argument is not an assertion)");
+            for bad in [build(&l(fresh(14))), build(&crate::spec::k(3000 + fresh(14) as u64)), build(&w(a(l(fresh(15)), l(fresh(16))))), build(&n(l(fresh(17)), vec![a(l(fresh(18)), l(fresh(19)))])), build(&w(l(fresh(14))))] {
+                ensure!(e.add_assertion_envelope(bad.clone()).is_err(), "add_assertion_envelope accepted a non-assertion", "{:?}", kind(&bad));
+                ensure!(e.add_optional_assertion_envelope(Some(bad.clone())).is_err(), "add_optional_assertion_envelope accepted a non-assertion", "{:?}", kind(&bad));
+                ensure!(e.add_assertion_envelope_salted(bad.clone(), false).is_err() && e.add_assertion_envelope_salted(bad.clone(), true).is_err(), "add_assertion_envelope_salted accepted a non-assertion", "{:?}", kind(&bad));
+                ensure!(e.add_optional_assertion_envelope_salted(Some(bad.clone()), false).is_err(), "add_optional_assertion_envelope_salted accepted a non-assertion", "{:?}", kind(&bad));
+                ensure!(e.add_assertion_envelopes(&[bad.clone()]).is_err(), "add_assertion_envelopes accepted a non-assertion", "{:?}", kind(&bad));
+                ensure!(e.add_assertion_envelope_if(true, bad.clone()).is_err(), "add_assertion_envelope_if accepted a non-assertion", "{:?}", kind(&bad));
+            }
+            None
         }
         _ => { op("encode->decode"); Some(must!(Envelope::try_from_cbor_data(bytes(e)), "decode of own encoding failed")) }
     })
@@ -487,12 +500,12 @@ pub fn prop_c04() -> Prop {
         id: "C04",
         scenarios: vec![
             Scenario { name: "sequences2", f: seq2, thorough_only: false,
-                bounds: "13 start envelopes (leaf, known value, assertion, wrapped, nodes with 1-3 assertions, decorated assertion, wrapped node subject, elided / compressed / encrypted children, assertion subject) x every sequence of 2 operations out of 30 (replace_assertion with an invalid / already present replacement, replace_subject by the envelope itself / by a node sharing an assertion, add, add duplicate, add an elided/compressed copy of a present assertion, add the clear copy of an elided assertion, remove present/absent, replace assertion, replace subject by leaf / by node, wrap, unwrap, elide removing / revealing, compress(_subject), uncompress(_subject), encrypt_subject, decrypt_subject, add_salt_instance, add_assertion_salted, add_signature, add_recipient, add_type, add_attachment, encode->decode) with every argument choice x every digest order; after each step: structure well-formed, stored digests == recomputed, serialized bytes accepted by an independent grammar recogniser, assertion elements strictly ascending under the path condition, receiver unchanged",
+                bounds: "13 start envelopes (leaf, known value, assertion, wrapped, nodes with 1-3 assertions, decorated assertion, wrapped node subject, elided / compressed / encrypted children, assertion subject) x every sequence of 2 operations out of 31 (every adding entry point with a non-assertion argument, replace_assertion with an invalid / already present replacement, replace_subject by the envelope itself / by a node sharing an assertion, add, add duplicate, add an elided/compressed copy of a present assertion, add the clear copy of an elided assertion, remove present/absent, replace assertion, replace subject by leaf / by node, wrap, unwrap, elide removing / revealing, compress(_subject), uncompress(_subject), encrypt_subject, decrypt_subject, add_salt_instance, add_assertion_salted, add_signature, add_recipient, add_type, add_attachment, encode->decode) with every argument choice x every digest order; after each step: structure well-formed, stored digests == recomputed, serialized bytes accepted by an independent grammar recogniser, assertion elements strictly ascending under the path condition, receiver unchanged",
                 api: &["add_assertion", "add_assertion_envelope", "remove_assertion", "replace_assertion", "replace_subject", "wrap_envelope", "unwrap_envelope", "elide_removing_target", "elide_revealing_array", "compress", "compress_subject", "uncompress", "uncompress_subject", "encrypt_subject", "decrypt_subject", "add_salt_instance", "add_assertion_salted", "add_signature", "add_recipient", "add_type", "add_attachment", "try_from_cbor_data", "tagged_cbor"] },
             Scenario { name: "sequences3", f: seq3, thorough_only: false,
                 bounds: "7 node-shaped starts (quick) / all 13 (thorough) x every sequence of 3 operations out of 10 structural ones (quick) / 14 (thorough) (replace with a present twin, replace_subject by a node sharing an assertion, add, add duplicate, add obscured/clear copy of a present assertion, remove, replace assertion, replace subject by leaf / node, wrap, elide, uncompress_subject, decrypt_subject) x every digest order",
                 api: &["add_assertion", "add_assertion_envelope", "remove_assertion", "replace_assertion", "replace_subject", "wrap_envelope", "elide_removing_target", "uncompress_subject", "decrypt_subject"] },
-            Scenario { name: "sequences3_full", f: seq3_full, thorough_only: true, bounds: "every sequence of 3 operations out of all 30", api: &["(all of sequences2)"] },
+            Scenario { name: "sequences3_full", f: seq3_full, thorough_only: true, bounds: "every sequence of 3 operations out of all 31", api: &["(all of sequences2)"] },
             Scenario { name: "sequences4", f: seq4, thorough_only: true, bounds: "7 node-shaped starts x every sequence of 4 operations out of 8 (add, remove, replace assertion, replace subject by leaf / node, wrap, elide, add the clear copy of an elided assertion) x every digest order", api: &["(all of sequences3)"] },
         ],
         assumptions: COMMON_ASSUMPTIONS.to_vec(),
